@@ -23,11 +23,15 @@ from . import xmlcommon as X
 DEF = X.DEF
 
 
-def round_trip(ctx: Ctx, name: str, build):
+def round_trip(ctx: Ctx, name: str, build, prelude=None):
     prog = ctx.prog
     site0 = f"{DEF}::XtcePacketDefinition::{name}"
     h = X.harness(prog)
     try:
+        if prelude is not None:
+            # another definition was written earlier in the same process (same type names, other contents): what is written
+            # for this one must not depend on that
+            X.write_tree(h, prelude(h))
         d = build(h)
         g1 = X.write_tree(h, d)
     except Raised as r:
@@ -194,6 +198,10 @@ def check(ctx: Ctx) -> None:
         ctx.guard("R9.cov", DEF, coverage, ctx, d)
         ctx.guard("R9.dec", DEF, decode_equivalence, ctx, h, d1, d2)
     ctx.guard("R9.rt", DEF, round_trip, ctx, "all-defaults", lambda h: h.ev(X.minimal_src(), DEF))
+    ctx.guard("R9.rt", DEF, round_trip, ctx, "all-defaults, written after a definition whose types have the same names but other contents",
+              lambda h: h.ev(X.minimal_src(), DEF),
+              lambda h: h.ev(X.minimal_src().replace('IntegerDataEncoding(8, "unsigned"', 'IntegerDataEncoding(16, "signed"')
+                             .replace("FloatDataEncoding(32)", "FloatDataEncoding(64)").replace("fixed_raw_length=16", "fixed_raw_length=24"), DEF))
     r3 = ctx.guard("R9.rt", DEF, round_trip, ctx, "nested three deep, only the root listed", lambda h: h.ev(X.nested_src(), DEF))
     if r3:
         h3, d, d1, d2 = r3
